@@ -59,10 +59,15 @@ it.  For every entry index (all of the index type), through the code as it is af
                         linked section answers like none).  Non-vacuity computed on prefixes that DO load
                         (`exDynView`, image `exImg4`): 250 bytes -> count 1, entry 0 = (DT_NULL, 0, ""), entry 1 refused;
                         266 bytes -> count 3, DT_NEEDED false with tag/value intact; 269 bytes -> the file.
+  prefix_modinfo_sound  (Props/ComposeTables3.lean) [complete file's section bytes = Spec.encodeModinfo as, `AttrOk`]
+                        the modinfo accessor on a prefix that loads holds NO attribute (data not in the prefix) or
+                        exactly the complete file's list `as`; get_attribute(k) / get_attribute(field) answer from that
+                        list for every k / name.  Non-vacuity on `exImg7` (section data behind the header table):
+                        244 bytes -> loads, 0 attributes; 248 bytes -> loads, the 2 attributes.
 Partial (what is NOT a theorem, covered by correspondence + oracle only): the PT_NOTE segment accessor on a prefix
 (`C17.prefix_sound_segment` says the segments of a successfully loaded prefix are the complete file's; the composition
-with segment_notes_reports_spec is not written out), modinfo / verneed / verdef / by-name / by-value / resolved
-relocation read-outs on a prefix.
+with segment_notes_reports_spec needs a segment clause in `PrefixLoaded` and a `prefix_segResident` lemma - not written),
+verneed / verdef / by-name / by-value / resolved relocation read-outs on a prefix.
 Correspondence + oracle: every prefix (quick: a stratified sample plus all lengths around table
 and data boundaries; thorough: every length) of encoder-built images and small examples, eager and
 lazy; the oracle compares the prefix's observation with the complete file's observation, field by
@@ -93,9 +98,11 @@ THEOREMS = ["ElfioVerif.C17.read_prefix", "ElfioVerif.C17.isolatedRead_prefix",
             "ElfioVerif.ComposeTables.prefixLoadedC_of_load", "ElfioVerif.ComposeTables.prefix_secResident_c",
             "ElfioVerif.ComposeTables.pready_inv", "ElfioVerif.ComposeTables.dyn_acc_prefix",
             "ElfioVerif.ComposeTables.prefix_reloc_sound", "ElfioVerif.ComposeTables.prefix_dynamic_sound",
+            "ElfioVerif.ComposeTables.prefix_modinfo_sound",
             "ElfioVerif.ComposeTables.prefix_notes_sound", "ElfioVerif.ComposeTables.prefix_array_sound",
             "ElfioVerif.ComposeTables.prefix_versym_sound"]
-EXTRA_IMPORTS = ["ElfioVerif.Props.Compose", "ElfioVerif.Props.ComposeTables", "ElfioVerif.Props.ComposeTables2"]
+EXTRA_IMPORTS = ["ElfioVerif.Props.Compose", "ElfioVerif.Props.ComposeTables", "ElfioVerif.Props.ComposeTables2",
+                 "ElfioVerif.Props.ComposeTables3"]
 SITES = ["conv", "load_s", "sec32_load", "sec64_load", "seg32_load", "seg64_load", "seg32_range", "seg64_range"]
 RULE = ("(image, k): object 0 loads the complete well-formed image, object 1 its prefix of length k, both "
         "observed identically; images from tools/elfspec.py in 4 configurations and small bundled examples; "
